@@ -28,6 +28,15 @@ CHECKS = {
  "C20": dict(cat="exploration", tech="differential runtime monitor: same generated histories through core.h and through the C++ engine interface, traces compared event by event",
              text="Each history runs once through BuildEngine/Rule/Task and once only through llb_buildengine_*/llb_task_*; per-build traces on the shared vocabulary must be identical, both runs are monitored (M-proto/M-value/M-justify) and the DB written via the C interface is read back independently.",
              note="Single-use requests, prior values, run reasons and rule signatures do not exist in the C interface; db.h and Swift bindings not covered.", ref="4/C20"),
+ "C08": dict(cat="exploration", tech="runtime monitor over real `llbuild buildsystem build` runs: outputs compared with contents predicted for a clean build, cross-checked by real clean builds",
+             text="Generated descriptions and edit histories (sources, outputs, description edits incl. nodes moving between inputs and outputs and sources becoming produced nodes), serial and -j4, each build a new process of the ASan/UBSan binary; after every successful build every reachable output must equal the predicted clean-build bytes.",
+             note="Commands are one deterministic helper whose hash is recomputed in Python; mtimes assigned explicitly; failing builds only counted.", ref="4/C08"),
+ "C09": dict(cat="exploration", tech="runtime monitor: null-build run log, single-attribute description pairs (re-run iff relevant), Command::getSignature() observed through the delegate",
+             text="Null builds over the C08 workload must run nothing; pairs differing in exactly one of 20 attributes must re-run the command iff the attribute is signature-relevant; signatures of such pairs and of 17 structural near-collisions must differ and be stable across processes.",
+             note="Downstream re-runs after a legitimate re-run are allowed; 64-bit chance collisions ignored.", ref="4/C09"),
+ "C10": dict(cat="exploration", tech="runtime monitor with injected command failures (exit/signal/late failure/missing input/unwritable output), oracles from run log + delegate events + predicted contents",
+             text="Failing build, unrepaired rebuild, repair, rebuild - through the CLI (cancel on first failure) and a keep-going BuildSystemFrontend client, serial and -j4: no consumer of a failing command starts, exit status non-zero, the failing command is retried, and after repair it re-executes and outputs converge to the predicted clean state.",
+             note="Failure directives are files read only by the helper; sandbox runs as root.", ref="4/C10"),
  "C13": dict(cat="exploration", tech="runtime oracle over real file-system observations (ASan/UBSan build) + valgrind memcheck subset",
              text="Generated (kind, size, mtime) x transition cases on a real ext4 directory, observed through the three FileSystem modes; oracle computed from raw stat/lstat and byte comparison; held on the cases listed in the evidence, nothing more.",
              note="Trusts the kernel's stat(); explicit utimensat mtimes; directories are only compared empty.", ref="4/C13"),
